@@ -44,7 +44,7 @@ class S:
             d.vals[t] = v
         return d
 
-    def term(self, name, names, support=None, allow_empty=True):
+    def term(self, name, names, support=None, allow_empty=True, reverse=False):
         """A PolyhedralTerm satisfying the class invariant (stored coefficients are non-zero), built directly.
 
         support: None = every subset of `names` is explored (nondeterministic choice), or a list of names."""
@@ -56,6 +56,8 @@ class S:
                 raise PathInfeasible("precondition: every term mentions a variable")
         t = Obj(self.PT, self.ctx)
         pairs = []
+        if reverse:
+            support = list(reversed(support))  # same term, dictionary populated in the opposite order
         for n in support:
             c = self.real("%s_%s" % (name, n))
             self.h.assume(c != 0, None)
